@@ -20,6 +20,7 @@ import re
 import shutil
 
 from vf import build, coq, datadir, forest, mch
+from vf.core import sh
 from vf.forest import Call
 
 NAMES = ["main", "alpha", "beta", "gamma", "delta", "eps", "zeta", "eta", "theta", "iota", "kappa", "lam"]
@@ -365,7 +366,7 @@ def evaluate(ctx, cases, name="cases"):
     defs = "Definition cases : list case := [\n%s\n].\n" % ";\n".join(case_term(c) for c in cases)
     evs = [("mm_" + e, "bad_indices agree_%s cases 0" % e) for e in EVALS]
     evs += [("v_agree", "bad_indices ok_agree cases 0"), ("v_spec", "bad_indices ok_spec cases 0"),
-            ("v_range", "bad_indices ok_range cases 0"),
+            ("v_range", "bad_indices ok_range cases 0"), ("v_switch", "bad_indices ok_switch cases 0"),
             ("in_spec", "bad_indices (fun k => negb (spec_class k)) cases 0")]
     res = coq.run_cases(ctx, name, PRE, defs, evs)
     if res is None:
@@ -431,7 +432,7 @@ def gen_case(rng, kind, eq=True):
         tags.append("t=T")
     if kind in ("timetrig", "mix"):
         for _ in range(rng.choice([1, 2])):
-            trig(pick())["time"] = rng.choice([0, 1, T - 1, T, T + 1, 3 * T] if eq else [T, T + 1, 3 * T, 5 * T])
+            trig(pick())["time"] = rng.choice([0, 1, T - 1, T, T + 1, 3 * T] if eq else [1, 3, T - 1, T, T + 1, 3 * T, 5 * T])
         if rng.random() < 0.4:
             trig(pick())["trace"] = True
     if kind in ("caller", "caller_time"):
@@ -446,12 +447,16 @@ def gen_case(rng, kind, eq=True):
     if kind == "fdt":       # the shape of DESIGN section 9 #12 stays out (record/replay line only)
         trig(pick())["filter"] = True
         cfg["depth"] = rng.choice([1, 2, 3])
-    if kind == "switch":
+    if kind in ("switch", "switch_f"):
+        if kind == "switch_f":
+            trig(pick())["filter"] = rng.choice([True, True, False])
+            if rng.random() < 0.4:
+                cfg["threshold"] = T
         trig(pick())["trace_off"] = True
         k = pick()
         if not trig(k).get("trace_off"):
             trig(k)["trace_on"] = True
-        if rng.random() < 0.5:
+        if kind == "switch" and rng.random() < 0.4:
             cfg["depth"] = rng.choice([2, 3])
     if kind == "range":
         ts = sorted(set([c.t0 for c in calls] + [c.t1 for c in calls]))
@@ -461,6 +466,21 @@ def gen_case(rng, kind, eq=True):
         cfg["range"] = rng.choice([(lo, hi), (lo, 0), (0, hi)])
         if rng.random() < 0.3:
             cfg["depth"] = rng.choice([1, 2, 3])
+    if kind == "range_only":
+        # the case splits of Range.v: nothing / something before, inside, after the window; ends on exact
+        # timestamps (both included); window starting with an ENTRY or with an EXIT; empty window
+        ts = sorted(set([c.t0 for c in calls] + [c.t1 for c in calls]))
+        first, last = ts[0], ts[-1]
+        a, bnd = sorted([rng.choice(ts), rng.choice(ts)])
+        cfg["range"] = rng.choice([(a, bnd), (a, a), (a + 1, bnd - 1) if a + 1 <= bnd - 1 else (a, bnd), (first, bnd),
+                                   (a, last), (first - 5, last + 5), (last + 1, last + 50), (1, first - 1), (a, 0),
+                                   (0, bnd), (a - 1, bnd + 1)])
+        tags.append("range:" + ("empty" if not [t for t in ts if (not cfg["range"][0] or t >= cfg["range"][0])
+                                                  and (not cfg["range"][1] or t <= cfg["range"][1])] else "nonempty"))
+        for t in ts:
+            if t in cfg["range"]:
+                tags.append("range:end-on-timestamp")
+                break
     if kind in ("pltleaf", "plt"):
         cfg["libcall"] = False
         leafs = sorted(set(c.k for c in calls if not c.kids) - set(c.k for c in calls if c.kids))
@@ -504,13 +524,13 @@ def gen_case(rng, kind, eq=True):
 
 
 KINDS = ["plain", "depth", "filter", "notrace", "fn", "fd", "time", "timetrig", "caller", "caller_time", "hide",
-         "deptrig", "fdt", "mix", "mix2", "switch", "range", "pltleaf", "plt"]
+         "deptrig", "fdt", "mix", "mix2", "switch", "switch_f", "range", "range_only", "pltleaf", "plt"]
 
 
 # ---------------------------------------------------------------- meta
 def common_meta(ctx):
     ctx.rule = ("a case = (call forest of 1-25 calls over 8 functions with durations drawn around the thresholds, "
-                "option set of one of %d kinds); the real replay/replay --no-merge/script/dump/dump --chrome/report/"
+                "option set of one of %d kinds; further lines: 2-3 task directories, record-vs-replay through libmcount, compiled programs); the real replay/replay --no-merge/script/dump/dump --chrome/report/"
                 "graph run on the synthetic directory of the forest; distinct = distinct (forest, options); "
                 "non-trivial = the option set hides at least one call" % len(KINDS))
     ctx.trusted = [
@@ -525,12 +545,12 @@ def common_meta(ctx):
         "in-process libmcount harness harness/c/mc_harness.c + vf/mch.py for the record-time line",
     ]
     ctx.assume = [
-        "one task, one session, user ENTRY/EXIT records only (no kernel/perf/event/LOST records); well-nested "
+        "one session, 1-3 tasks, user ENTRY/EXIT records only (no kernel/perf/event/LOST records); well-nested "
         "recordings with non-decreasing timestamps below 2^63; nesting below max_stack (1024)",
         "pattern matching of -F/-N/-T/-C/-H arguments (regex/glob, demangling) is not part of the model: options "
         "name whole functions",
         "not modelled: -Z/size=, -L (needs debug info), elapsed-time ranges, --trace=off, --kernel*, --tid, "
-        "exec/setjmp/fork fix-ups; fstack_enabled is global and shared by all tasks (single-task model)",
+        "exec/setjmp/fork fix-ups (tasks are threads of one process: no fork display-depth inheritance)",
     ]
 
 
@@ -599,6 +619,11 @@ def verdict1(ctx, cases, res):
                       "filter semantics (select) for options %s" % " ".join(cli_opts(cases[i]["cfg"])),
                       {"line": 1, "check": "ok_spec", "case": case_json(cases[i]),
                        "outputs": {k: v for k, v in cases[i]["out"].items()}}, True)
+    for i in res["v_switch"][:3]:
+        ctx.violation("C07 violated: trace_on/trace_off do not act as the documented switch for options %s"
+                      % " ".join(cli_opts(cases[i]["cfg"])),
+                      {"line": 1, "check": "ok_switch", "case": case_json(cases[i]),
+                       "outputs": {k: v for k, v in cases[i]["out"].items()}}, True)
     for i in res["v_range"][:3]:
         ctx.violation("C07 violated: -r does not select exactly the records inside the time range: %s"
                       % " ".join(cli_opts(cases[i]["cfg"])),
@@ -610,7 +635,7 @@ def verdict1(ctx, cases, res):
                       {"line": 1, "check": "ok_agree", "case": case_json(cases[i]),
                        "outputs": {k: v for k, v in cases[i]["out"].items()}}, True)
     mm = {e: res["mm_" + e] for e in EVALS if res["mm_" + e]}
-    if mm and not res["v_spec"] and not res["v_agree"] and not res["v_range"]:
+    if mm and not res["v_spec"] and not res["v_agree"] and not res["v_range"] and not res["v_switch"]:
         e, idx = sorted(mm.items())[0]
         ctx.violation("model and implementation disagree for `%s` on %d case(s) (%s); the property checker accepts "
                       "every explored output" % (e, len(idx), ", ".join("%s:%d" % (k, len(v)) for k, v in sorted(mm.items()))),
@@ -737,6 +762,324 @@ KINDS2 = ["plain", "depth", "filter", "notrace", "fn", "fd", "time", "timetrig",
           "deptrig", "fdt", "switch"]
 
 
+# ---------------------------------------------------------------- line 3: several tasks
+SCRIPT_M = """
+def uftrace_begin(ctx):
+    pass
+def uftrace_entry(ctx):
+    print("E %s %d %d" % (ctx["name"], ctx["depth"], ctx["tid"]))
+def uftrace_exit(ctx):
+    print("X %s %d %d" % (ctx["name"], ctx["depth"], ctx["tid"]))
+def uftrace_end():
+    pass
+"""
+RE_TID = re.compile(r"^\s*\[\s*(\d+)\] \| (.*)$")
+
+
+def parse_replay_m(out):
+    ev = []
+    for l in out.splitlines():
+        if not l.strip() or l.startswith("#"):
+            continue
+        if l.startswith("uftrace stopped tracing"):
+            break
+        m = RE_TID.match(l)
+        if not m:
+            raise ParseError("replay -f tid line not understood: %r" % l)
+        t = int(m.group(1)) - TID
+        for x, f, d in parse_replay(m.group(2)):
+            ev.append((t, (x, f, d)))
+    return ev
+
+
+def parse_script_m(out):
+    ev = []
+    for l in out.splitlines():
+        k = l.split()
+        if len(k) == 4 and k[0] in ("E", "X"):
+            ev.append((int(k[3]) - TID, (k[0] == "X", fn_of(k[1]), int(k[2]))))
+        elif l.strip():
+            raise ParseError("script line not understood: %r" % l)
+    return ev
+
+
+def parse_raw_m(out):
+    ev = []
+    for l in out.splitlines():
+        if l.startswith("uftrace file header") or l.startswith("reading ") or not l.strip():
+            continue
+        m = RE_RAW.match(l)
+        if not m:
+            raise ParseError("dump line not understood: %r" % l)
+        ev.append((int(m.group(3)) - TID, (m.group(4) == "exit ", fn_of(m.group(5)), int(m.group(7)),
+                                            int(m.group(1)) * 10**9 + int(m.group(2)))))
+    return ev
+
+
+RE_CHROME_M = re.compile(r'^\{"ts":(\d+)\.(\d{3}),"ph":"([BE])","pid":(\d+),(?:"tid":(\d+),)?"name":"([\w<>]+)"')
+
+
+def parse_chrome_m(out):
+    ev = []
+    for l in out.splitlines():
+        if '"ph":"M"' in l or '"ph"' not in l:
+            continue
+        m = RE_CHROME_M.match(l)
+        if not m:
+            raise ParseError("chrome line not understood: %r" % l)
+        tid = int(m.group(5) or m.group(4))
+        ev.append((tid - TID, (m.group(3) == "E", fn_of(m.group(6)), int(m.group(1)) * 1000 + int(m.group(2)))))
+    return ev
+
+
+def run_commands_m(objdir, d, cfg, script_path):
+    o = cli_opts(cfg)
+
+    def run(cmd, args):
+        rc, out, err = datadir.uftrace(objdir, cmd, d, args, timeout=30)
+        if rc != 0:
+            raise ParseError("uftrace %s %s failed rc=%d: %s" % (cmd, " ".join(args), rc, (out + err)[-400:]))
+        return out
+    return {"replay": parse_replay_m(run("replay", ["-f", "tid"] + o)),
+            "nomerge": parse_replay_m(run("replay", ["-f", "tid", "--no-merge"] + o)),
+            "script": parse_script_m(run("script", ["-S", script_path] + o)),
+            "raw": parse_raw_m(run("dump", o)),
+            "chrome": parse_chrome_m(run("dump", ["--chrome"] + o)),
+            "report": parse_report(run("report", o)),
+            "graph": parse_graph(run("graph", o))}
+
+
+def gen_mcase(rng, kind):
+    cfg, f, tags = gen_case(rng, kind)
+    ntask = rng.choice([2, 2, 3])
+    fs = [f]
+    for i in range(1, ntask):
+        g = forest.gen_shape(rng, NFUN, rng.choice([3, 6, 10]), rng.choice([2, 3, 4]))
+        forest.assign_times(rng, g, t0=rng.choice([1000, 1000, 1001, 1040]), durs=(1, 2, 3, 9, 10, 11, 99, 100, 101, 200))
+        fs.append(g)
+    times = [set(t for c in fcalls(g) for t in (c.t0, c.t1)) for g in fs]
+    if any(times[i] & times[j] for i in range(len(fs)) for j in range(i)):
+        tags.append("equal-timestamps-across-tasks")
+    return cfg, fs, tags + ["tasks=%d" % ntask]
+
+
+def mcase_term(mc):
+    o = mc["out"]
+
+    def tg(l, inner):
+        return "[%s]" % "; ".join("(%d%%nat, %s)" % (t, inner(e)) for t, e in l)
+    nd = lambda e: "(%s, %d%%N, %d)" % (b(e[0]), e[1], e[2])          # noqa: E731
+    rt = lambda e: "(%s, %d%%N, %d, %d%%N)" % (b(e[0]), e[1], e[2], e[3])   # noqa: E731
+    nt = lambda e: "(%s, %d%%N, %d%%N)" % (b(e[0]), e[1], e[2])        # noqa: E731
+    return ("{| mk_cfg := %s; mk_forests := [%s]; mk_nfun := %d;\n   mo_replay := %s;\n   mo_nomerge := %s;\n"
+            "   mo_script := %s;\n   mo_raw := %s;\n   mo_chrome := %s;\n   mo_report := %s;\n   mo_graph := %s |}") % (
+        coq_cfg(mc["cfg"]), "; ".join(coq_forest(f) for f in mc["forests"]), NFUN, tg(o["replay"], nd),
+        tg(o["nomerge"], nd), tg(o["script"], nd), tg(o["raw"], rt), tg(o["chrome"], nt), coq_nl(o["report"]),
+        coq_tri(o["graph"]))
+
+
+def line3(ctx, objdir, todo):
+    sp = os.path.join(ctx.scratch, "c07_script_m.py")
+    with open(sp, "w") as f:
+        f.write(SCRIPT_M)
+    d = os.path.join(ctx.scratch, "data3")
+    cases = []
+    for kind, cfg, fs, tags in todo:
+        try:
+            if os.path.exists(d):
+                shutil.rmtree(d)
+            datadir.write({"syms": syms_for(cfg), "base": BASE,
+                           "tasks": [{"tid": TID + i, "pid": TID, "recs": recs_of(f)} for i, f in enumerate(fs)]}, d)
+            out = run_commands_m(objdir, d, cfg, sp)
+        except ParseError as e:
+            ctx.violation("an analysis command failed or printed something unexpected (several tasks): %s" % e,
+                          {"line": 3, "mcase": {"cfg": cfg_json(cfg), "forests": [[c.to_json() for c in f] for f in fs],
+                                                "options": cli_opts(cfg)}}, True)
+            continue
+        cases.append({"kind": kind, "cfg": cfg, "forests": fs, "out": out, "tags": tags})
+    return cases
+
+
+MEVALS = ["replay", "nomerge", "script", "raw", "chrome", "report", "graph"]
+
+
+def evaluate3(ctx, cases, name="mcases"):
+    defs = "Definition mcases : list mcase := [\n%s\n].\n" % ";\n".join(mcase_term(c) for c in cases)
+    evs = [("mm_" + e, "bad_indices magree_%s mcases 0" % e) for e in MEVALS]
+    evs += [("v_agree", "bad_indices mok_agree mcases 0"), ("v_spec", "bad_indices mok_spec mcases 0"),
+            ("in_spec", "bad_indices (fun k => negb (mspec_class k)) mcases 0")]
+    res = coq.run_cases(ctx, name, PRE, defs, evs)
+    if res is None:
+        return None
+    return {k: coq.parse_nat_list(v) for k, v in res.items()}
+
+
+def mcase_json(c):
+    return {"cfg": cfg_json(c["cfg"]), "forests": [[x.to_json() for x in f] for f in c["forests"]],
+            "options": cli_opts(c["cfg"]), "kind": c.get("kind")}
+
+
+def verdict3(ctx, cases, res):
+    if res is None:
+        return
+    for i in res["v_spec"][:3]:
+        ctx.violation("C07 violated (several tasks): a task does not show the calls selected by the documented filter "
+                      "semantics for options %s" % " ".join(cli_opts(cases[i]["cfg"])),
+                      {"line": 3, "check": "mok_spec", "mcase": mcase_json(cases[i]), "outputs": cases[i]["out"]}, True)
+    for i in res["v_agree"][:3]:
+        ctx.violation("C07 violated (several tasks): the analysis commands disagree on the visible calls for options %s"
+                      % " ".join(cli_opts(cases[i]["cfg"])),
+                      {"line": 3, "check": "mok_agree", "mcase": mcase_json(cases[i]), "outputs": cases[i]["out"]}, True)
+    mm = {e: res["mm_" + e] for e in MEVALS if res["mm_" + e]}
+    if mm and not res["v_spec"] and not res["v_agree"]:
+        e, idx = sorted(mm.items())[0]
+        ctx.violation("model and implementation disagree for `%s` with several tasks on %d case(s) (%s)"
+                      % (e, len(idx), ", ".join("%s:%d" % (k, len(v)) for k, v in sorted(mm.items()))),
+                      {"line": 3, "correspondence": "C07.Model multi-task driver for %s vs the real command" % e,
+                       "mcase": mcase_json(cases[idx[0]]), "outputs": cases[idx[0]]["out"]}, False)
+    ctx.extra["disagreements_checked"] = ctx.extra.get("disagreements_checked", 0) + sum(len(v) for v in mm.values())
+
+
+KINDS3 = ["plain", "depth", "filter", "fn", "fd", "time", "timetrig", "caller", "hide", "deptrig", "mix", "mix2", "switch",
+          "range", "pltleaf", "plt"]
+
+
+# ---------------------------------------------------------------- line 4: end to end with compiled programs
+def gen_program(rng):
+    """random call DAG over NAMES[0..7] (main = 0, callees have a higher number) -> (C source, call forest)"""
+    for _ in range(50):
+        calls = {0: [rng.randrange(1, 4) for _ in range(rng.choice([1, 2, 3]))]}
+        for i in range(1, NFUN):
+            hi = list(range(i + 1, NFUN))
+            calls[i] = [rng.choice(hi) for _ in range(rng.choice([0, 0, 1, 2, 3]))] if hi else []
+        count = [0]
+
+        def unfold(i, depth):
+            count[0] += 1
+            if count[0] > 80 or depth > 12:
+                raise OverflowError
+            return Call(i, kids=[unfold(j, depth + 1) for j in calls[i]])
+        try:
+            tree = unfold(0, 0)
+        except OverflowError:
+            continue
+        if count[0] < 4:
+            continue
+        src = ["volatile int sink;", "#define NI __attribute__((noinline))"]
+        for i in range(NFUN - 1, 0, -1):
+            src.append("NI void %s(void) { sink++; %s }" % (NAMES[i], " ".join("%s();" % NAMES[j] for j in calls[i])))
+        src.append("int main(void) { %s sink++; return 0; }" % " ".join("%s();" % NAMES[j] for j in calls[0]))
+        f = [tree]
+        clock = [1000]
+
+        def stamp(c):
+            clock[0] += 3
+            c.t0 = clock[0]
+            for k in c.kids:
+                stamp(k)
+            clock[0] += 3
+            c.t1 = clock[0]
+        stamp(tree)
+        return "\n".join(src) + "\n", f
+    raise RuntimeError("could not generate a program")
+
+
+def gen_e2e_cfg(rng, f):
+    used = sorted(set(c.k for c in fcalls(f)))
+    cfg = {"trig": {}}
+    kind = rng.choice(["depth", "filter", "notrace", "fn", "fd", "fnd"])
+    if kind in ("depth", "fd", "fnd"):
+        cfg["depth"] = rng.choice([1, 2, 3, max(1, fheight(f) - 1)])
+    if kind in ("filter", "fn", "fd", "fnd"):
+        for _ in range(rng.choice([1, 2])):
+            cfg["trig"].setdefault(rng.choice(used), {})["filter"] = True
+    if kind in ("notrace", "fn", "fnd"):
+        for _ in range(rng.choice([1, 2])):
+            k = rng.choice(used)
+            if not cfg["trig"].get(k):
+                cfg["trig"][k] = {"filter": False}
+    return kind, cfg
+
+
+def parse_replay_known(out):
+    """replay output of a real program: lines of functions that are not ours (start-up code) are dropped"""
+    keep = []
+    for l in out.splitlines():
+        m = RE_OPEN.match(l) or RE_LEAF.match(l) or RE_CLOSE.match(l)
+        if m and m.group(2) not in FN:
+            continue
+        keep.append(l)
+    return parse_replay("\n".join(keep))
+
+
+def line4(ctx, objdir, nprog, ncfg):
+    rng = ctx.rng
+    uft = os.path.join(objdir, "uftrace")
+    root = os.path.join(ctx.scratch, "e2e")
+    os.makedirs(root, exist_ok=True)
+    cases = []
+
+    def record(exe, d, opts):
+        shutil.rmtree(d, ignore_errors=True)
+        rc, out, err = sh(["timeout", "30", uft, "record", "--no-pager", "--no-event", "--no-libcall",
+                           "--libmcount-path=" + objdir, "-d", d] + opts + [exe], timeout=60, cwd=root)
+        if rc != 0:
+            raise ParseError("uftrace record %s failed rc=%d: %s" % (" ".join(opts), rc, (out + err)[-300:]))
+
+    def replay(d, opts):
+        if not any(x.endswith(".dat") and os.path.getsize(os.path.join(d, x)) > 0 for x in os.listdir(d)):
+            return []
+        rc, out, err = datadir.uftrace(objdir, "replay", d, ["-f", "none"] + opts, timeout=30)
+        if rc != 0:
+            raise ParseError("uftrace replay %s failed rc=%d: %s" % (" ".join(opts), rc, (out + err)[-300:]))
+        return parse_replay_known(out)
+    for pi in range(nprog):
+        src, f = gen_program(rng)
+        with open(os.path.join(root, "p.c"), "w") as fh:
+            fh.write(src)
+        exes = {}
+        for shape, flags in (("pg", ["-pg"]), ("cyg", ["-finstrument-functions"])):
+            exe = os.path.join(root, "p_%s" % shape)
+            sh(["gcc", "-O0", "-w", "-fno-builtin"] + flags + ["-o", exe, os.path.join(root, "p.c")], check=True)
+            exes[shape] = exe
+        for shape, exe in exes.items():
+            full = os.path.join(root, "full")
+            try:
+                record(exe, full, [])
+                base = replay(full, [])
+                for _ in range(ncfg):
+                    kind, cfg = gen_e2e_cfg(rng, f)
+                    o = cli_opts(cfg)
+                    record(exe, os.path.join(root, "filt"), o)
+                    cases.append({"kind": kind, "shape": shape, "cfg": cfg, "forest": f, "src": src,
+                                  "rec": replay(os.path.join(root, "filt"), []), "opt": replay(full, o), "base": base})
+            except ParseError as e:
+                ctx.violation("end-to-end run failed: %s" % e, {"line": 4, "program": src, "shape": shape}, True)
+    return cases
+
+
+def evaluate4(ctx, cases, name="ecases"):
+    defs = "Definition ecases : list ecase := [\n%s\n].\n" % ";\n".join(
+        "{| e_cfg := %s; e_forest := %s; e_rec := %s; e_opt := %s |}" % (
+            coq_cfg(c["cfg"]), coq_forest(c["forest"]), coq_nd(c["rec"]), coq_nd(c["opt"])) for c in cases)
+    res = coq.run_cases(ctx, name, PRE, defs, [("v_e2e", "bad_indices ok_e2e ecases 0")])
+    if res is None:
+        return None
+    return {k: coq.parse_nat_list(v) for k, v in res.items()}
+
+
+def verdict4(ctx, cases, res):
+    if res is None:
+        return
+    for i in res["v_e2e"][:3]:
+        c = cases[i]
+        ctx.violation("C07 violated end to end (%s): `record %s` + replay, `record` + `replay %s` and the documented "
+                      "selection differ" % (c["shape"], " ".join(cli_opts(c["cfg"])), " ".join(cli_opts(c["cfg"]))),
+                      {"line": 4, "program": c["src"], "shape": c["shape"], "options": cli_opts(c["cfg"]),
+                       "record_with_options_then_replay": c["rec"], "record_then_replay_with_options": c["opt"],
+                       "forest": [x.to_json() for x in c["forest"]], "cfg": cfg_json(c["cfg"])}, True)
+
+
 # ---------------------------------------------------------------- dedicated witnesses of known divergences
 def C(k, t0, t1, kids=None):
     return Call(k, t0, t1, kids or [])
@@ -845,6 +1188,33 @@ def run(ctx):
     verdict2(ctx, rcases, res2)
     for (key, what, cfg, f, shape), c in zip(w2, [c for c in rcases if c["kind"].startswith("witness:")]):
         report_witness(ctx, key, what, c["rec_replay"] != c["opt_replay"], {"line": 2, "rcase": rcase_json(c)})
+    # ---- line 3: several tasks
+    todo = []
+    n3 = ctx.n(3, 25)
+    for kind in KINDS3:
+        for _ in range(n3 if kind != "plain" else 1):
+            cfg, fs, tags = gen_mcase(rng, kind)
+            todo.append((kind, cfg, fs, tags))
+    mcases = line3(ctx, objdir, todo)
+    res3 = evaluate3(ctx, mcases)
+    inside3 = set(res3["in_spec"]) if res3 else set()
+    for i, c in enumerate(mcases):
+        size = sum(x.size() for f in c["forests"] for x in f)
+        ctx.case(key=("mt", json.dumps(cfg_json(c["cfg"]), sort_keys=True),
+                      json.dumps([[x.to_json() for x in f] for f in c["forests"]])),
+                 nontrivial=len(c["out"]["chrome"]) != 2 * size,
+                 tags=["several-tasks", "mt:" + c["kind"]] + [t for t in c["tags"] if t.startswith(("tasks=", "equal-"))]
+                 + (["mt:in-spec-class"] if i in inside3 else []),
+                 size=size, sample=mcase_json(c) if i == 1 else None)
+    verdict3(ctx, mcases, res3)
+    # ---- line 4: compiled programs, real `uftrace record`
+    ecases = line4(ctx, objdir, ctx.n(1, 6), ctx.n(4, 8))
+    res4 = evaluate4(ctx, ecases)
+    for c in ecases:
+        ctx.case(key=("e2e", c["shape"], c["src"], json.dumps(cfg_json(c["cfg"]), sort_keys=True)),
+                 nontrivial=c["opt"] != c["base"], tags=["e2e", "e2e:" + c["shape"], "e2e:" + c["kind"]],
+                 size=sum(x.size() for x in c["forest"]))
+    verdict4(ctx, ecases, res4)
 
 
 def replay(ctx, obj):
@@ -860,6 +1230,17 @@ def replay(ctx, obj):
             ctx.case(key="replay", sample=rcase_json(c))
             ctx.log("replayed: record", c["rec_replay"], "vs replay", c["opt_replay"])
         verdict2(ctx, rcases, res2)
+        return
+    mj = obj.get("mcase")
+    if mj:
+        cfg = cfg_unjson(mj["cfg"])
+        fs = [[Call.from_json(x) for x in f] for f in mj["forests"]]
+        mcases = line3(ctx, objdir, [("replay", cfg, fs, [])])
+        res3 = evaluate3(ctx, mcases)
+        for c in mcases:
+            ctx.case(key="replay", sample=mcase_json(c))
+            ctx.log("replayed (several tasks): options", " ".join(cli_opts(cfg)), "outputs", c["out"])
+        verdict3(ctx, mcases, res3)
         return
     cj = obj.get("case")
     if not cj:
